@@ -270,3 +270,14 @@ def check(ctx):
     # ---- C18.d other registrations untouched ----
     n = core.adopt(ctx, c06, lambda o: o["rule"] == "C06.b", "C18.d")
     ctx.floor("C18.d", n, 25, "shared revoke-exactness obligations")
+    # a revoke whose token names a dead entity still revokes every other entry of the token (shared with C06.c)
+    n = core.adopt(ctx, c06, lambda o: o["rule"] == "C06.c" and "visits-every-token-entry" in o["key"], "C18.d")
+    ctx.floor("C18.d", n, 1, "shared token-traversal obligation (C06.c)")
+    # ---- C18.f payload accounting with dead listeners: one command (and one count) per registered listener, dead or
+    #      alive - the abort path releases the share of a dead one (shared with C05.a/C05.b) ----
+    n = core.adopt(ctx, c05, lambda o: o["rule"] in ("C05.a", "C05.b"), "C18.f")
+    ctx.floor("C18.f", n, 4, "shared reader-count obligations (C05.a/b)")
+    # ---- C18.g registering a despawn trigger on a dead entity stores nothing (shared with C08.c) ----
+    import c08
+    n = core.adopt(ctx, c08, lambda o: o["rule"] == "C08.c" and "registers-only-live-entity" in o["key"], "C18.g")
+    ctx.floor("C18.g", n, 1, "shared dead-entity registration obligation (C08.c)")
